@@ -820,6 +820,9 @@ func (Olvm) Gen(c *Ctx) []Tx {
 	st.reconcile(c, v)
 	out := st.fund(c, v)
 	snd := st.senders(c, v)
+	if c.Rng.Intn(7) == 0 {
+		out = append(st.staleScenario(c, v, &snd), out...)
+	}
 	n := 1
 	switch r := c.Rng.Intn(10); {
 	case r >= 8:
@@ -827,16 +830,64 @@ func (Olvm) Gen(c *Ctx) []Tx {
 	case r >= 4:
 		n = 2
 	}
-	for i := 0; i < n && len(snd) > 0 && len(out) < 4; i++ {
+	for i := 0; i < n && len(snd) > 0 && len(out) < 5; i++ {
 		s := snd[0]
 		snd = snd[1:]
 		out = append(out, st.one(c, v, s, &snd)...)
 	}
-	if len(out) > 4 {
-		out = out[:4]
+	if len(out) > 5 {
+		out = out[:5]
 	}
 	for _, u := range c.W.EthUsers {
 		st.LastBelief[u.Label] = c.S.EthNonce[u.Label]
+	}
+	return out
+}
+
+// staleScenario: an OLVM transaction of account X that fails inside the state transition after it read
+// X's account (stale nonce, or gas cost above the balance), then a native transaction that changes X's
+// balance, then a successful OLVM transaction that touches X again; the three keep their order in the
+// block. Whatever the failed transaction left behind in the VM's object cache would show in the third.
+func (st *olvmState) staleScenario(c *Ctx, v *olvmView, snd *[]*olvmSender) []Tx {
+	if len(*snd) < 2 || len(c.W.Users) == 0 {
+		return nil
+	}
+	x := (*snd)[0]
+	y := (*snd)[1]
+	*snd = (*snd)[2:]
+	if !x.exact || !y.exact {
+		return nil
+	}
+	grp := "stale" + strconv.FormatInt(c.H, 10)
+	xa := olvmEth(x.acc)
+	ya := olvmEth(y.acc)
+	balX := v.bal(xa)
+	var out []Tx
+	// 1. fails in the state transition, nothing written
+	if lim := c.W.Knobs.MaxGas; lim > 0 && lim < 100000000 && c.Rng.Intn(4) != 0 {
+		// passes every stateless and balance check, but asks for more gas than a block can hold
+		g := lim + 1 + c.Rng.Int63n(100000000-lim)
+		out = append(out, st.tx(c, x, &ya, olvmSmall(c), nil, g, "OLVM/stale-gas-above-block-limit", &olvmOpt{noBump: true}))
+	} else if x.nonce > 0 && c.Rng.Intn(2) == 0 {
+		out = append(out, st.tx(c, x, &ya, olvmSmall(c), nil, 50000, "OLVM/stale-nonce-low", &olvmOpt{nonce: olvmU64p(x.nonce - 1), noBump: true}))
+	} else {
+		p := new(big.Int).Add(new(big.Int).Div(balX, big.NewInt(100000)), big.NewInt(1))
+		out = append(out, st.tx(c, x, &ya, nil, nil, 100000, "OLVM/stale-cost-gt-balance", &olvmOpt{price: p, noBump: true}))
+	}
+	// 2. native change of X's balance (an ETHSECP key cannot sign a native transaction, so it is always a credit)
+	{
+		from := c.W.Users[pick(c.Rng, len(c.W.Users))]
+		msg := &transfer.Send{From: from.Addr, To: x.acc.Addr, Amount: core.OLT(nueOf(int64(10 + c.Rng.Intn(500))))}
+		out = append(out, Tx{Bytes: core.BuildTx(msg, core.DefaultFee(), memo(c), from), Kind: "SEND/stale-credit"})
+	}
+	// 3. successful OLVM transaction touching X
+	if c.Rng.Intn(2) == 0 {
+		out = append(out, st.tx(c, y, &xa, olvmSmall(c), nil, 50000, "OLVM/stale-pay-x", nil))
+	} else {
+		out = append(out, st.tx(c, x, &ya, olvmSmall(c), nil, 50000, "OLVM/stale-x-pays", nil))
+	}
+	for i := range out {
+		out[i].Group = grp
 	}
 	return out
 }
@@ -1703,3 +1754,5 @@ func (st *olvmState) hostile(c *Ctx, v *olvmView, s *olvmSender, rest *[]*olvmSe
 }
 
 func init() { Register(Olvm{}) }
+
+func olvmU64p(x uint64) *uint64 { return &x }
